@@ -18,6 +18,7 @@ mod tests;
 use base64::display::Base64Display;
 use base64::engine::general_purpose::STANDARD;
 use std::borrow::Cow;
+use std::cell::Cell;
 use std::fmt::{Debug, Display, Formatter};
 use swimos_form::write::{
     BodyWriter, HeaderWriter, Label, PrimitiveWriter, RecordBodyKind, StructuralWritable,
@@ -66,6 +67,11 @@ struct StructurePrinter<'a, 'b, S> {
     num_items: usize,
     first: bool,
     delegated: bool,
+    /// Present when the value is the only item of a record that has attributes and so is written
+    /// without enclosing braces. If the value turns out to be a record itself, it must open the
+    /// body of the enclosing record, and set the flag to have it closed, as its contents would
+    /// otherwise be read as the contents of the enclosing record.
+    sole_item: Option<&'a Cell<bool>>,
 }
 
 impl<'a, 'b, S: Debug> Debug for StructurePrinter<'a, 'b, S> {
@@ -77,6 +83,7 @@ impl<'a, 'b, S: Debug> Debug for StructurePrinter<'a, 'b, S> {
             .field("num_tems", &self.num_items)
             .field("first", &self.first)
             .field("delegated", &self.delegated)
+            .field("sole_item", &self.sole_item)
             .finish()
     }
 }
@@ -90,6 +97,7 @@ impl<'a, 'b, S> StructurePrinter<'a, 'b, S> {
             num_items: 0,
             first: true,
             delegated: false,
+            sole_item: None,
             strategy,
         }
     }
@@ -98,6 +106,30 @@ impl<'a, 'b, S> StructurePrinter<'a, 'b, S> {
         self.delegated = true;
         self
     }
+
+    fn sole_item(mut self, wrapped: &'a Cell<bool>) -> Self {
+        self.sole_item = Some(wrapped);
+        self
+    }
+}
+
+/// Write the sole item of a record that has attributes. If it is a record, it is enclosed in
+/// braces.
+fn write_sole_item<V: StructuralWritable, S: PrintStrategy + Copy>(
+    fmt: &mut Formatter<'_>,
+    mut strategy: S,
+    value: &V,
+) -> std::fmt::Result {
+    let wrapped = Cell::new(false);
+    let printer = StructurePrinter::new(fmt, strategy).sole_item(&wrapped);
+    value.write_with(printer)?;
+    if wrapped.get() {
+        //Bring the strategy into the state that it was in after the block was opened.
+        let _ = strategy.start_block(1);
+        strategy.end_block().fmt(fmt)?;
+        fmt.write_str("}")?;
+    }
+    Ok(())
 }
 
 struct AttributePrinter<'a, 'b, S> {
@@ -248,7 +280,12 @@ where
     type Header = Self;
     type Body = Self;
 
-    fn record(self, _num_attrs: usize) -> Result<Self::Header, Self::Error> {
+    fn record(mut self, _num_attrs: usize) -> Result<Self::Header, Self::Error> {
+        if let Some(wrapped) = self.sole_item.take() {
+            self.fmt.write_str("{")?;
+            self.strategy.start_block(1).fmt(self.fmt)?;
+            wrapped.set(true);
+        }
         Ok(self)
     }
 }
@@ -347,9 +384,11 @@ where
             strategy,
             ..
         } = &mut self;
+        let mut sole_item = false;
         if *has_attr && !*brace_written {
             if *num_items == 1 {
                 fmt.write_str(" ")?;
+                sole_item = true;
             } else {
                 strategy.attr_padding().fmt(fmt)?;
                 fmt.write_str("{")?;
@@ -363,8 +402,12 @@ where
             fmt.write_str(",")?;
             strategy.item_padding(*brace_written).fmt(fmt)?;
         }
-        let printer = StructurePrinter::new(fmt, *strategy);
-        value.write_with(printer)?;
+        if sole_item {
+            write_sole_item(fmt, *strategy, value)?;
+        } else {
+            let printer = StructurePrinter::new(fmt, *strategy);
+            value.write_with(printer)?;
+        }
         Ok(self)
     }
 
@@ -754,6 +797,7 @@ where
             strategy,
             ..
         } = &mut self;
+        let mut sole_item = false;
         if !*brace_written && *single_item {
             if !*has_attr {
                 fmt.write_str("{")?;
@@ -761,6 +805,7 @@ where
                 *brace_written = true;
             } else if *first {
                 fmt.write_str(" ")?;
+                sole_item = true;
             }
         }
         if *first {
@@ -769,8 +814,12 @@ where
             fmt.write_str(",")?;
             strategy.item_padding(*brace_written).fmt(fmt)?;
         }
-        let printer = StructurePrinter::new(fmt, *strategy);
-        value.write_with(printer)?;
+        if sole_item {
+            write_sole_item(fmt, *strategy, value)?;
+        } else {
+            let printer = StructurePrinter::new(fmt, *strategy);
+            value.write_with(printer)?;
+        }
         Ok(self)
     }
 
